@@ -1,6 +1,8 @@
 """C10 - customising one loader or dumper class never changes another (inductive ownership invariant)."""
 import sys
 
+from sa import rules_sibling as RSB
+from sa import rules_r6b as R6B
 from sa import rules_r6 as R6
 from sa import report, effects as E, rules_registry as RR
 from sa import rules_extra as RX
@@ -29,6 +31,8 @@ def run(ctx, repo):
     ctx.extra['registrations_folded'] = len(rm.registrations)
     ctx.call(RX.r_cow_all_paths, repo)
     ctx.call(R6.r_cow_minimal, repo)
+    ctx.call(R6B.r_yamlobject_registers_all, repo)
+    ctx.call(RSB.r_class_composition, repo)
 
 
 if __name__ == '__main__':
